@@ -62,7 +62,7 @@ def run(ctx, known, built):
         r = rows[i]
         ctx.disagreements.append({
             "what": "model of Font::save differs from the implementation (outcome or resulting tree)",
-            "seed": ctx.seed, "index": i, "scenario": r,
+            "seed": ctx.seed, "index": r["i"], "scenario": r,
             "model_outcome": save_common.fmt_outcome(outcome),
             "implementation_outcome": r["obs"],
             "model_tree": sorted(save_common.tree_paths(tree).items())[:200],
@@ -93,6 +93,9 @@ def run(ctx, known, built):
             "refusal_x_prior": {"%s/%s" % k: v for k, v in sorted(kinds.items())},
             "outcomes": dict(collections.Counter(r["obs"].split(" ")[0].strip("(") for r in rows)),
             "in_place_saved": sum(1 for r in rows if r["in_place"] and r["obs"] == "Saved"),
+            "history_saves": sum(1 for r in rows if r.get("history")),
+            "history_refused_then_saved_in_place": len({r["i"] for r in rows if r.get("history") and r["in_place"] and r["obs"] == "Saved"}
+                                                       & {r["i"] for r in rows if r.get("history") and r["expected_refusal"]}),
             "store_files_checked_preserved": sum(r["preserved"] for r in rows),
             "refused_cases": sum(1 for r in rows if r["expected_refusal"]),
         },
@@ -110,7 +113,8 @@ def replay(ctx, path):
         print("replay file names no scenario (kind=%s): %s" % (d.get("kind"), json.dumps(d)[:800]))
         return 1
     tmp = os.path.join(ctx.scratch, "replay.txt")
-    open(tmp, "w").write("%d %d\n" % (case.get("seed", d.get("seed", 1)), case["index"]))
+    hist = " h" if (case.get("scenario") or {}).get("history") else ""
+    open(tmp, "w").write("%d %d%s\n" % (case.get("seed", d.get("seed", 1)), case["index"], hist))
     rc, o = sh([ctx.harness, "c08", "--replay", tmp, "--out", os.path.join(ctx.scratch, "r")])
     print(o)
     return 0
